@@ -32,7 +32,7 @@ CHECKS = {
    note="sequentially consistent interleavings; race detector only sees instrumented code (generated C, w2c2_base.h inlines, futex)", ref="5/C18"),
  "C19": dict(engine="simrt", cat="exploration", tech="deterministic simulation on the forced big-endian build: seeded load/store/bulk/atomic histories against the byte-reversed reference model, atomic histories also under seeded schedules",
    text="The E1 workloads of C05, C16 and C17 (wait/notify, judged by the futex rules) run on a build with WASM_ENDIAN forced to big-endian; the model stores every 16/32/64-bit access byte-reversed and 8-bit/bulk accesses unreversed, so a wrong-width, doubled or missing swap changes bytes or results. Runtime half of the property only.",
-   note="a little-endian host with WASM_ENDIAN forced to big; the 'translator itself on a big-endian host' clause (buffer.h) is not reachable in this sandbox and is not claimed", ref="5/C19"),
+   note="a little-endian host with WASM_ENDIAN forced to big. The 'translator itself on a big-endian host' clause (buffer.h) has no schedule or fault in it; it is only touched by an auxiliary, schedule-free sample: the translator built with the big-endian reader must produce, for a module, the output the plain translator produces for the same module with byte-reversed f32/f64 immediates", ref="5/C19"),
 }
 
 CHECKS["C06"] = dict(engine="siminst", cat="exploration", tech="deterministic simulation: seeded interleavings (at operation boundaries) of instantiations and calls on 1-4 live instances of seeded module variants, per-instance / per-object reference model compared after every operation",
